@@ -53,3 +53,18 @@ add("C19", "exploration",
     "For headers claiming key sizes up to 65535 and value sizes up to 2^31-1 (both types, 0-64 trailing bytes) appended to small and medium unclean images, the recovering Open is measured against the same image without the tail on the same file system and pinned seed: extra allocation must stay within 2*tail+32 KiB, extra segment bytes read within 2*tail+64 KiB, no single read request larger than the largest file+64 KiB, contents equal to the valid prefix. No timing is judged.",
     "TotalAlloc is trusted as allocation meter; claims below the 32 KiB slack are not distinguishable from noise (bounded constant).",
     "DESIGN.md 4/C19")
+add("C15", "exploration",
+    "runtime resource/structure monitor: directory listing diff around every Compact, allowed-file whitelist, /proc/self/fd and /proc/self/maps meters, usability calls after compaction, coarse growth bound over steady-state cycles",
+    "Steady overwrite/delete cycles over a fixed live set with a Compact per cycle, restarts every third cycle and forced delete-everything cycles, on all four file systems and a threshold grid; after every Compact the segments that disappeared must have left neither .psg nor .psg.pmt behind, every remaining file must be whitelisted, Sync/Put/Delete/Backup/Close must succeed (also with zero segments), descriptor and mapping counts must stay within live segments plus a constant, and directory size must not keep growing.",
+    "The growth bound is coarse by design; /proc meters are trusted. Held on the cycles listed in the evidence.",
+    "DESIGN.md 4/C15")
+add("C17", "exploration",
+    "runtime differential monitor: the same pinned-seed program executed on fs.Mem, fs.OS, fs.OSMMap (and the harness CrashFS); line-by-line comparison of call-result traces and segment-file fingerprints at checkpoints",
+    "Generated programs (collisions, splits, rollover, compaction, clean restarts, FileSize, simulated unclean shutdowns with torn tails written through the FileSystem interface and recovery with truncation) run on every FileSystem implementation with the same hash seed; every observable result, every Items order and the names/lengths/fingerprints of all segment files at every checkpoint must be identical.",
+    "Error texts are not compared (they contain paths). linux/amd64 only. A divergence of CrashFS alone is treated as a harness problem (inconclusive), not as a violation.",
+    "DESIGN.md 4/C17")
+add("C18", "exploration",
+    "runtime monitor: golden corpus written by the pinned build opened by the current code on four file systems (backward) + independent decoder validating every segment byte and the log replay at checkpoints of generated histories (forward)",
+    "Backward: 24 committed directories written by the pinned version (clean, copied while open, torn) must open on OS/OSMMap/Mem/CrashFS with the recorded contents, with/without recovery as appropriate, with a consistent index, and survive a further session. Forward: at every checkpoint of generated histories the independent decoder must accept every segment file up to its last byte, names must be %05d-%d.psg with sequence ids ordering creation, index files must carry the documented header, and the decoder's replay in sequence order must equal the reference.",
+    "Corpus generated once from commit 0e387fd + hook commits (no fix commits) by tools in this tree (pvh gengolden). The decoder defines the documented format.",
+    "DESIGN.md 4/C18")
